@@ -759,6 +759,16 @@ func runC18(tier string, seed uint64, o *Out) error {
 	// consecutive seeds would replay almost the same cases: hash the seed first
 	rng := NewRNG(NewRNG(seed).Next())
 	stuck := 0
+	// family M (c18m.go) runs a second time under the race detector: the -race build of this harness is started now
+	// (a child process, no goroutine of ours) and awaited when that family's turn comes
+	raceBin := func() string { return "" }
+	if tier != "race" {
+		wait := c18RaceBuild()
+		var once sync.Once
+		bin := ""
+		raceBin = func() string { once.Do(func() { bin = wait() }); return bin }
+		defer raceBin()
+	}
 	strategies := []string{"drop", "block", "expand"}
 	scriptKinds := []string{"direct", "analytic", "counting1", "global1", "cepopen", "cepdef", "cepmeas"}
 	randKinds := []string{"direct", "analytic", "cep", "cepdef", "tumbling", "sliding", "session", "tumblingE", "slidingE", "sessionE", "counting", "global"}
@@ -898,6 +908,10 @@ func runC18(tier string, seed uint64, o *Out) error {
 	}
 	o.Line("%s", l)
 	o.Count("overlapping_stop")
+	// (5) family M: EmitSync / Emit callers hammering one instance (child process; plain, then under the race detector)
+	if err := runC18Memory(tier, seed, raceBin, o); err != nil {
+		return err
+	}
 	if tier == "thorough" {
 		return c18RaceRun(seed, o)
 	}
